@@ -324,6 +324,28 @@ theorem RbInv.isSome {rbs : List (Nat × Patch)} {h : List Ver} (hr : RbInv rbs 
     · rw [hj, ← hh, hr.1]; rfl
     · exact ih hr.2 hc.tail (by simp at h2; omega)
 
+/-- the stored redo patch of every version on the chain is that version's patch -/
+def PtInv (pts : List (Nat × Patch)) : List Ver → Prop
+  | [] => True
+  | v :: h => lookupH pts v.id.height = some v.patch ∧ PtInv pts h
+
+theorem PtInv.congr {pts pts' : List (Nat × Patch)} {h : List Ver}
+    (he : ∀ v ∈ h, lookupH pts' v.id.height = lookupH pts v.id.height) (hr : PtInv pts h) : PtInv pts' h := by
+  induction h with
+  | nil => trivial
+  | cons v h ih =>
+    refine ⟨?_, ih (fun w hw => he w (List.mem_cons_of_mem _ hw)) hr.2⟩
+    rw [he v (by simp)]; exact hr.1
+
+theorem PtInv.mem {pts : List (Nat × Patch)} {h : List Ver} (hr : PtInv pts h) {v : Ver} (hv : v ∈ h) :
+    lookupH pts v.id.height = some v.patch := by
+  induction h with
+  | nil => simp at hv
+  | cons w h ih =>
+    rcases List.mem_cons.1 hv with hv | hv
+    · subst hv; exact hr.1
+    · exact ih hr.2 hv
+
 /-- the part of the invariant that only needs the height discipline -/
 structure Inv0 (s : Ldb) (h : List Ver) : Prop where
   hchain : HChain h
@@ -331,6 +353,8 @@ structure Inv0 (s : Ldb) (h : List Ver) : Prop where
   front : KvLogic.abs s.frontier = topStore h
   rb : RbInv s.rollbacks h
   rbNone : ∀ j, j = 0 ∨ h.length < j → lookupH s.rollbacks j = none
+  pt : PtInv s.patches h
+  ptNone : ∀ j, j = 0 ∨ h.length < j → lookupH s.patches j = none
 
 /-- the full invariant: a well-formed chain, and the raw state represents it -/
 structure Inv (s : Ldb) (h : List Ver) : Prop where
@@ -385,7 +409,7 @@ theorem Inv0.add {s s' : Ldb} {h : List Ver} (hi : Inv0 s h) {id : Id} (ops : Pa
   have hok' : HOk (topId h) id := hfid ▸ hok
   have hlen : id.height = h.length + 1 := by rw [hok'.height, hi.hchain.topHeight]
   subst hs'
-  refine ⟨HChain.cons hi.hchain hok', hi.sorted.edApply _, ?_, ⟨?_, ?_⟩, ?_⟩
+  refine ⟨HChain.cons hi.hchain hok', hi.sorted.edApply _, ?_, ⟨?_, ?_⟩, ?_, ⟨?_, ?_⟩, ?_⟩
   · simp only [topStore_cons, commitVer]
     rw [abs_edApply, hi.front]
   · simp [commitVer, lookupH_cons]
@@ -400,6 +424,18 @@ theorem Inv0.add {s s' : Ldb} {h : List Ver} (hi : Inv0 s h) {id : Id} (ops : Pa
     have hne : j ≠ id.height := by omega
     rw [lookupH_cons, if_neg (fun e => hne (Eq.symm e)), lookupH_filter_ne _ _ _ hne]
     exact hi.rbNone j (by omega)
+  · simp [commitVer, lookupH_cons]
+  · refine PtInv.congr ?_ hi.pt
+    intro v hv
+    have := (hi.hchain.mem_height hv).2
+    have hne : v.id.height ≠ id.height := by omega
+    rw [lookupH_cons, if_neg (fun e => hne (Eq.symm e))]
+    exact lookupH_filter_ne _ _ _ hne
+  · intro j hj
+    simp only [List.length_cons] at hj
+    have hne : j ≠ id.height := by omega
+    rw [lookupH_cons, if_neg (fun e => hne (Eq.symm e)), lookupH_filter_ne _ _ _ hne]
+    exact hi.ptNone j (by omega)
 
 /-- what a pop does in a state with a non-empty history -/
 theorem Inv0.pop_eq {s s' : Ldb} {v : Ver} {h : List Ver} (hi : Inv0 s (v :: h)) (hp : s.pop = some s') :
@@ -416,7 +452,7 @@ theorem Inv0.pop {s s' : Ldb} {v : Ver} {h : List Ver} (hi : Inv0 s (v :: h)) (h
   have hs' := hi.pop_eq hp
   have hh := hi.hchain.head_height
   subst hs'
-  refine ⟨hi.hchain.tail, hi.sorted.edApply _, ?_, ?_, ?_⟩
+  refine ⟨hi.hchain.tail, hi.sorted.edApply _, ?_, ?_, ?_, ?_, ?_⟩
   · simp only []
     rw [abs_edApply, hi.front]
     simp only [topStore_cons]
@@ -430,6 +466,15 @@ theorem Inv0.pop {s s' : Ldb} {v : Ver} {h : List Ver} (hi : Inv0 s (v :: h)) (h
     · rw [hjv]; exact lookupH_filter_self _ _
     · rw [lookupH_filter_ne _ _ _ hjv]
       exact hi.rbNone j (by simp only [List.length_cons]; omega)
+  · refine PtInv.congr ?_ hi.pt.2
+    intro w hw
+    have := (hi.hchain.tail.mem_height hw).2
+    exact lookupH_filter_ne _ _ _ (by omega)
+  · intro j hj
+    by_cases hjv : j = v.id.height
+    · rw [hjv]; exact lookupH_filter_self _ _
+    · rw [lookupH_filter_ne _ _ _ hjv]
+      exact hi.ptNone j (by simp only [List.length_cons]; omega)
 
 /-- a pop on the empty history is refused (no undo patch is stored for height 0) -/
 theorem Inv0.pop_empty {s : Ldb} (hi : Inv0 s []) : s.pop = none := by
@@ -470,8 +515,7 @@ inductive Reach : Ldb → List Ver → Prop
   | pop {s s' v h} : Reach s (v :: h) → s.pop = some s' → Reach s' h
 
 theorem Inv.init : Inv Ldb.empty [] := by
-  refine ⟨Chain.nil, HChain.nil, Sorted.nil, abs_nil, trivial, ?_⟩
-  intro j _; rfl
+  refine ⟨Chain.nil, HChain.nil, Sorted.nil, abs_nil, trivial, ?_, trivial, ?_⟩ <;> (intro j _; rfl)
 
 theorem Reach.inv {s : Ldb} {h : List Ver} (hr : Reach s h) : Inv s h := by
   induction hr with
@@ -652,5 +696,15 @@ theorem Inv.add_stale_succeeds {s : Ldb} {h : List Ver} (hi : Inv s h) {v : Ver}
 theorem Inv.add_unknown {s : Ldb} {h : List Ver} (hi : Inv s h) {prev : Id} (hz : prev.isZero = false)
     (hid : ∀ v ∈ h, v.id ≠ prev) (id : Id) (ops : Patch) : s.add prev id ops = none := by
   simp [Ldb.add, hi.get_unknown hz hid]
+
+/-- replaying the redo patches of the chain, oldest first, from the empty store gives the frontier content -/
+theorem HChain.replay {h : List Ver} (hc : HChain h) :
+    (h.reverse.map Ver.patch).foldl applyP Store.empty = topStore h := by
+  induction h with
+  | nil => rfl
+  | cons v h ih =>
+    simp only [List.reverse_cons, List.map_append, List.map_cons, List.map_nil, List.foldl_append,
+      List.foldl_cons, List.foldl_nil, topStore_cons]
+    rw [ih hc.tail, hc.head_store]
 
 end ZV.Versioned
